@@ -176,6 +176,9 @@ func runC07(c *Ctx) {
 		}
 	}
 
+	// protected-header rules (alg allowed, nothing but alg/kid): the same contract as C02.G4
+	c.protectedHeaderRules()
+
 	// ---------------- per type, non-batch
 	for _, typ := range opTypes {
 		f := pf[typ]
